@@ -33,6 +33,8 @@ type VerifEnv struct {
 	Unprotects    []peer.ID
 	UnprotectTags []string
 	Protects      int
+	// CleanupHook, if set, runs inside CleanupChannel (i.e. while the cleanup entry function runs)
+	CleanupHook func()
 }
 
 func (e *VerifEnv) Protect(id peer.ID, tag string) { e.Protects++ }
@@ -44,6 +46,9 @@ func (e *VerifEnv) Unprotect(id peer.ID, tag string) bool {
 func (e *VerifEnv) ID() peer.ID { return e.Self }
 func (e *VerifEnv) CleanupChannel(chid datatransfer.ChannelID) {
 	e.Cleanups = append(e.Cleanups, chid)
+	if e.CleanupHook != nil {
+		e.CleanupHook()
+	}
 }
 
 // VerifNote is one notifier call.
